@@ -22,6 +22,7 @@ structure Pend where
   due : Int            -- virtual time (relative to T0)
   handle : Int
   fp : Bool            -- scheduled with a function pointer
+  giver : Option Nat   -- this_player() when it was scheduled
   deriving Repr, DecidableEq
 
 /-- what the oracle can object to -/
@@ -36,6 +37,7 @@ inductive Violation where
   | fireUnscheduled (owner fn : Nat) (tag : String) (t : Int)
   | fireEarly (owner : Nat) (tag : String) (due t : Int)
   | fireDestructedOwner (owner : Nat) (tag : String)
+  | fireWrongPlayer (owner : Nat) (tag : String) (got want : Option Nat)
   | removeHandleAnswer (owner : Nat) (tag : String) (got want : Int)
   | removeHandleNothingPending (owner : Nat) (tag : String) (got : Int)
   | findHandleAnswer (owner : Nat) (tag : String) (got want : Int)
@@ -81,6 +83,12 @@ def handleOf (s : JState) (o : Nat) (tag : String) : Int :=
 
 def isDeadJ (s : JState) (o : Nat) : Bool := s.dead.contains o
 
+/-- a saved this_player() at the time of the callback: 0 if that object has been destructed meanwhile -/
+def liveGiverJ (s : JState) (g : Option Nat) : Option Nat :=
+  match g with
+  | some x => if isDeadJ s x then none else some x
+  | none => none
+
 /-- expected answer of find/remove for entry e at time t; a dead owner's entry whose time has passed may
     already have been dropped by the sweep, so -1 is accepted as well -/
 def answerOk (s : JState) (e : Pend) (t r : Int) : Bool :=
@@ -94,22 +102,25 @@ def judgeStep (s : JState) (ev : Ev) : JState :=
     let missed := s.pend.filter (fun e => e.due ≤ t && !isDeadJ s e.owner)
     let s := missed.foldl (fun s e => s.flag (.notFired e.owner e.tag e.due t)) s
     { s with inTick := false, pend := s.pend.filter (fun e => e.due > t) }
-  | .co t o f d tag h fp =>
+  | .co t o f d tag h fp g =>
     if isDeadJ s o then
       if h == 0 then { s with handles := ((o, tag), 0) :: s.handles } else s.flag (.scheduledByDestructed ev)
     else if h == 0 then s.flag (.callOutRefused ev)
     else
       let s := if s.allHandles.contains h then s.flag (.handleReused ev) else s
       let due := t + (if d < 1 then 1 else d)
-      { s with pend := { owner := o, fn := f, tag := tag, due := due, handle := h, fp := fp } :: s.pend,
+      { s with pend := { owner := o, fn := f, tag := tag, due := due, handle := h, fp := fp, giver := g } :: s.pend,
                handles := ((o, tag), h) :: s.handles, allHandles := h :: s.allHandles }
-  | .fire t o f tag =>
+  | .fire t o f tag tp =>
     let s := if s.inTick then s else s.flag (.fireOutsideTick ev)
     match minDue (fun e => e.owner == o && e.tag == tag && e.fn == f) s.pend with
     | none => s.flag (.fireUnscheduled o f tag t)
     | some e =>
       let s := if e.due > t then s.flag (.fireEarly o tag e.due t) else s
       let s := if isDeadJ s o then s.flag (.fireDestructedOwner o tag) else s
+      -- this_player() in the callback is the saved command_giver, or 0 if that object has been destructed
+      let want := liveGiverJ s e.giver
+      let s := if tp == want then s else s.flag (.fireWrongPlayer o tag tp want)
       match removeOne (fun x => x == e) s.pend with
       | some r => { s with pend := r.2 }
       | none => s
